@@ -11,6 +11,7 @@ import (
 	"math"
 	"math/rand"
 	"os"
+	"path/filepath"
 	"reflect"
 	"runtime/debug"
 	"sort"
@@ -75,6 +76,7 @@ type Ctx struct {
 	Seed    int64
 	Flavour string
 	Rng     *rand.Rand
+	WorkDir string // scratch directory of this run (next to the event log, under /verif/.build); "" in replay mode: the system temp dir
 	group   string
 
 	// replay filter: when non-empty only this case key is judged
@@ -109,6 +111,7 @@ func NewCtx(prop, tier string, seed int64, flavour, logPath string) (*Ctx, error
 		if err != nil {
 			return nil, err
 		}
+		c.WorkDir = filepath.Dir(logPath)
 		c.f = f
 		c.w = bufio.NewWriterSize(f, 1<<16)
 	}
